@@ -505,21 +505,21 @@ def configs_b(ctx: Ctx) -> list[dict[str, Any]]:
         add(100.0, ["hold"], [], bound=1, trace=True)
         return out
     for idle, clocks in ((100.0, ([100.0], [50.0, 50.0], [100.0, 100.0])), (10.0, ([60.0], [10.0, 50.0], [5.0, 5.0]))):
-        for clock in clocks:
-            add(idle, [], clock)
-            for cl in (["quick"], ["hold"]):
-                add(idle, cl, clock, bound=3 if len(clock) == 1 else 2)
+        add(idle, [], clocks[0])
+        for cl in (["quick"], ["hold"]):
+            add(idle, cl, clocks[0], bound=3)
+            add(idle, cl, clocks[1], bound=2)
+            add(idle, cl, clocks[2], bound=1)
         add(idle, ["quick"], clocks[0], bound=1, env_cost=0)
         add(idle, ["quick", "quick"], clocks[0], bound=1)
-        add(idle, ["hold", "quick"], clocks[0], bound=1)
+        add(idle, ["hold", "quick"], clocks[0], bound=1 if idle == 100.0 else 0)
         add(idle, ["hold", "quick"], clocks[0], bound=0, max_conn=1)
-        add(idle, ["hold", "hold"], clocks[0], bound=0)
-        add(idle, ["hold", "quick"], clocks[1], bound=0)
+        add(idle, ["hold", "hold"], [], bound=0, max_conn=1)
         add(idle, ["hold"], clocks[0], serve_raises=True)
         add(idle, ["hold", "quick"], clocks[0], bound=0, serve_raises=True, max_conn=1)
-        add(idle, ["quick"], clocks[0], bound=2, trace=True)
-        add(idle, ["hold"], clocks[0], bound=2, trace=True)
-        add(idle, ["hold", "quick"], [], bound=1, trace=True)
+        add(idle, ["quick"], clocks[0], bound=2 if idle == 100.0 else 1, trace=True)
+        add(idle, ["hold"], clocks[0], bound=1, trace=True)
+        add(idle, ["hold", "quick"], [], bound=1 if idle == 100.0 else 0, trace=True)
     add(None, ["hold"], [100.0], bound=3)
     add(None, ["hold", "quick"], [], bound=1)
     add(None, ["hold", "hold"], [], bound=0, max_conn=1)
@@ -909,13 +909,14 @@ def configs_a(ctx: Ctx) -> list[dict[str, Any]]:
         return out
     for init in ("none", "live", "crashed"):
         add([1, 1], init=init, bound=3)
-        for env in (["exit"], ["crash"], ["exit", "crash"]):
-            add([1, 1], init=init, env=env)
+        add([1, 1], init=init, env=["exit"])
+        add([1, 1], init=init, env=["crash"])
+        add([1, 1], init=init, env=["exit", "crash"], bound=1)
         add([1, 1], init=init, env=["crash"], bound=1, env_cost=0)
         add([1, 2], init=init)
         add([2, 1], init=init)
         add([1, 2], init=init, env=["crash"], bound=1)
-        add([1, 1, 1], init=init)
+        add([1, 1, 1], init=init, bound=2 if init == "none" else 1)
         add([1, 1, 2], init=init, bound=1)
         add([1, 1], init=init, bound=2, trace=True)
         add([1, 2], init=init, bound=1, trace=True)
